@@ -555,16 +555,20 @@ func runHTTP(c HTTPCase, cc *kit.Case) {
 		}
 		ok := false
 		for _, id := range allowed {
+			// the write route's own resource is /api/write however the request reached it (preview rewrite)
+			if a, _ := id.allowAPI([]string{"api", "write"}, "write"); !a {
+				continue
+			}
 			if a, _ := id.allowDB(wc.db, "write"); a {
 				ok = true
 			}
 		}
 		if !ok {
-			cc.Fail("http/write-without-database-privilege", "points were written to database %q but the reference denies write on it to every validly identified user: %s", wc.db, describe())
+			cc.Fail("http/write-without-database-privilege", "points were written to database %q but the reference denies write on it (or on /api/write) to every validly identified user: %s", wc.db, describe())
 			return
 		}
 	}
-	if len(pw.calls) == 0 && reqDB != "" && len(allowed) > 0 && code == http.StatusUnauthorized {
+	if len(pw.calls) == 0 && reqDB != "" && len(allowed) > 0 && code == http.StatusUnauthorized && strings.Contains(w.Body.String(), "not authorized to write to database") {
 		cc.Label("write:refused-by-database-check")
 		cc.NonTrivial()
 	}
